@@ -227,6 +227,19 @@ def rule_k3(F):
     return r
 
 
+def rule_k4(F):
+    """Out-of-range list indices must not reach an address computation (a wild read/write or an overflow panic in the trampoline
+    kills the host) - the bounds rule of C15.M4 under C10's id."""
+    from . import c15
+    r0 = c15.rule_m4(F)
+    r = RuleResult("C10.K4", "list accessors reached from built-ins compute element addresses only after `index < len` held for every index on that path", floor=3)
+    r.instances, r.samples, r.anchor_missing = list(r0.instances), list(r0.samples), list(r0.anchor_missing)
+    for v in r0.violations:
+        v.rule = "C10.K4"
+        r.violations.append(v)
+    return r
+
+
 def canary(C):
     fired = []
     for b in C.all_bodies():
@@ -239,4 +252,4 @@ def canary(C):
 
 def rules(ctx):
     F = ctx["F"]
-    return [rule_k1(F), rule_k2(F), rule_k3(F)]
+    return [rule_k1(F), rule_k2(F), rule_k3(F), rule_k4(F)]
